@@ -12,7 +12,7 @@ ID = "C06"
 LEVEL = "exploration"
 RULE = ("seeded products with random content in every record (levels 1.1/1.5/3.1, 1-8 images, lines 1..12 quick / 1..60 thorough) "
         "opened with rpc in {1, a divisor, a non-divisor, N-1, N, N+1, 2N+3, 2^40} (N per image) plus an exhaustive block "
-        "lines 1..Lmax x rpc 1..Lmax+2; all opens of a product are compared pairwise through their canonical leaf maps. "
+        "lines 1..Lmax x rpc 1..Lmax+2; for a third of the products every open goes through an index cache written beforehand with another rpc; all opens of a product are compared pairwise through their canonical leaf maps. "
         "evaluations = pairs compared; non-trivial = pair with different rpc; distinct = distinct (level, #images, rpc class pair)")
 ASSUMPTIONS = ["the permitted difference is exactly encoding['preferred_chunksizes'] of variables backed by the image file"]
 REQUIRED_OBS = ["pairs", "leaves_compared", "encoding_checked"]
@@ -46,9 +46,17 @@ def run_case(i, tier, seed):
     sample = None
     try:
         canons = {}
+        via_cache = i % 3 == 0
+        if via_cache:
+            # the same relation must hold when every open goes through an index cache written with yet another rpc
+            import shutil
+            from vf import cachelib
+            shutil.rmtree(cachelib.user_cache_root(), ignore_errors=True)
+            harness.open_tree(url, use_cache=False, create_cache=True, records_per_chunk=rng.choice(rpcs))
+            obs["via_cache_products"] = 1
         for rpc in rpcs:
             try:
-                tree = harness.open_tree(url, use_cache=False, records_per_chunk=rpc)
+                tree = harness.open_tree(url, use_cache=via_cache, records_per_chunk=rpc)
                 canons[rpc] = canon.canon(tree)
                 obs["opens"] += 1
             except Exception as e:
@@ -73,7 +81,7 @@ def run_case(i, tier, seed):
             obs["pairs"] += 1
             obs["leaves_compared"] += len(canons[rpc])
             nmin = min(im["lines"] for im in info["images"].values())
-            sigs.append(f"{info['level']}|imgs:{len(info['images'])}|{harness.rpc_class(base_rpc, nmin)}~{harness.rpc_class(rpc, nmin)}|{kind}")
+            sigs.append(f"{info['level']}|imgs:{len(info['images'])}|{harness.rpc_class(base_rpc, nmin)}~{harness.rpc_class(rpc, nmin)}|{kind}|cache:{int(via_cache)}")
             if d:
                 violations.append({"what": f"trees for rpc={base_rpc} and rpc={rpc} differ at {len(d)} leaves, first: {d[0]}",
                                    "detail": {"diff": d[:6], "images": info["images"], "level": info["level"]}})
@@ -81,6 +89,10 @@ def run_case(i, tier, seed):
                   "leaves": len(next(iter(canons.values()), {}))}
     finally:
         synth.uninstall(files, root, kind)
+        if i % 3 == 0:
+            import shutil
+            from vf import cachelib
+            shutil.rmtree(cachelib.user_cache_root(), ignore_errors=True)
     for f in contracts.drain():
         violations.append({"what": f"contract {f['contract']} failed", "detail": f["detail"]})
     return {"sig": sigs, "evals": obs["pairs"], "violations": violations, "obs": obs, "sample": sample,
